@@ -152,6 +152,9 @@ pub struct PoolImpl {
     votor_event_channel: Sender<PoolEvent>,
     /// Channel for sending repair requests to the repair loop.
     repair_channel: Sender<BlockId>,
+    /// Every `FinalizationEvent` processed so far (verification harness only).
+    #[cfg(feature = "verif-hooks")]
+    verif_finalization_log: Vec<FinalizationEvent>,
 }
 
 impl PoolImpl {
@@ -171,6 +174,8 @@ impl PoolImpl {
             epoch_info,
             votor_event_channel,
             repair_channel,
+            #[cfg(feature = "verif-hooks")]
+            verif_finalization_log: Vec::new(),
         }
     }
 
@@ -410,6 +415,8 @@ impl PoolImpl {
     }
 
     async fn handle_finalization(&mut self, event: FinalizationEvent) {
+        #[cfg(feature = "verif-hooks")]
+        self.verif_finalization_log.push(event.clone());
         let new_parents_ready = self.parent_ready_tracker.handle_finalization(event);
         self.send_parent_ready_events(new_parents_ready).await;
         self.prune();
@@ -558,6 +565,9 @@ impl Pool for PoolImpl {
         let finalization_event = self
             .finality_tracker
             .add_parent(block_id.clone(), parent_id.clone());
+        #[cfg(feature = "verif-hooks")]
+        self.verif_finalization_log
+            .push(finalization_event.clone());
         let new_parents_ready = self
             .parent_ready_tracker
             .handle_finalization(finalization_event);
@@ -625,6 +635,61 @@ impl Pool for PoolImpl {
 
     fn wait_for_parent_ready(&mut self, slot: Slot) -> Either<BlockId, oneshot::Receiver<BlockId>> {
         self.parent_ready_tracker.wait_for_parent_ready(slot)
+    }
+}
+
+/// Read-only accessors for the out-of-tree verification harness.
+#[cfg(feature = "verif-hooks")]
+impl PoolImpl {
+    /// The pruning watermark used by the bounds checks.
+    pub fn verif_first_unpruned_slot(&self) -> Slot {
+        self.first_unpruned_slot()
+    }
+
+    /// Slots for which per-slot vote / certificate state is retained, in order.
+    pub fn verif_retained_slots(&self) -> Vec<Slot> {
+        self.slot_states.keys().copied().collect()
+    }
+
+    /// Root and retained per-slot states of the parent-ready tracker:
+    /// `(slot, skip flag, notar-fallback hashes, ready parents, waiter registered)`.
+    #[allow(clippy::type_complexity)]
+    pub fn verif_parent_ready_states(
+        &self,
+    ) -> (Slot, Vec<(Slot, bool, Vec<BlockHash>, Vec<BlockId>, bool)>) {
+        (
+            self.parent_ready_tracker.verif_root(),
+            self.parent_ready_tracker.verif_states(),
+        )
+    }
+
+    /// Retained finality statuses `(slot, tag, hash)` and parent links (see `pool_verif`).
+    #[allow(clippy::type_complexity)]
+    pub fn verif_finality_state(
+        &self,
+    ) -> (Vec<(Slot, u8, Option<BlockHash>)>, Vec<(BlockId, BlockId)>) {
+        (
+            self.finality_tracker.verif_status(),
+            self.finality_tracker.verif_parents(),
+        )
+    }
+
+    /// Retained `(parent, child)` entries of the safe-to-notar waiting map.
+    pub fn verif_s2n_waiting(&self) -> Vec<(BlockId, BlockId)> {
+        self.s2n_waiting_parent_cert
+            .iter()
+            .map(|(p, c)| (p.clone(), c.clone()))
+            .collect()
+    }
+
+    /// Every finalization event processed so far, in order, as
+    /// `(finalized, implicitly_finalized, implicitly_skipped)`.
+    pub fn verif_finalization_log(&self) -> Vec<verif::VerifFinalizationEvent> {
+        self.verif_finalization_log
+            .iter()
+            .cloned()
+            .map(|e| (e.finalized, e.implicitly_finalized, e.implicitly_skipped))
+            .collect()
     }
 }
 
